@@ -14,9 +14,9 @@ def prove_targets(db, targets, lemmas=(), timeout_ms=20000, verbose=False):
     for cc in targets:
         if cc.opts.get("abstract"):
             continue
-        if cc.kind == "tables":
+        if cc.kind in ("tables", "scan"):
             try:
-                o, rec = verify.verify_tables(db, cc)
+                o, rec = verify.verify_scan(db, cc) if cc.kind == "scan" else verify.verify_tables(db, cc)
                 heaps[id(o[0].inputs) if o else 0] = {}
                 for ob in o:
                     heaps[id(ob.inputs)] = {}
